@@ -35,7 +35,7 @@ func c16genClientSide(c *core.Case, r *rand.Rand) {
 			var op core.Op
 			switch x := r.IntN(10); {
 			case x < 4:
-				op = core.Op{Kind: "cadd", S: []string{"", "", "nest", "doom"}[r.IntN(4)]}
+				op = core.Op{Kind: "cadd", S: []string{"", "", "nest", "doom", "family"}[r.IntN(5)]}
 			case x < 6:
 				op = core.Op{Kind: []string{"cremove", "cremove", "cself"}[r.IntN(3)], X: int64(r.IntN(8))}
 			default:
@@ -70,6 +70,7 @@ type c16lent struct {
 	lendOK     bool
 	removeCall int64
 	removeRets []int64
+	parent     *c16lent // (a child created by its parent's activation)
 }
 
 type c16cs struct {
@@ -116,12 +117,14 @@ func c16clientSide(c *core.Case, env *core.Env, st *c16state) {
 		cs.lents = append(cs.lents, rec)
 		return rec
 	}
-	add := func(a int, nest, doom bool) {
+	add := func(a int, nest, doom, family bool) {
 		rec := newRec(false)
 		rec.impl.SelfDoom = doom
+		rec.impl.TermRemovesNest = family
 		var child *c16lent
 		if nest {
 			child = newRec(true)
+			child.parent = rec
 			rec.impl.Nest = child.impl
 		}
 		h := env.Invoke(a, "cadd", fmt.Sprintf("slot%d nest=%v", rec.slot, nest))
@@ -217,8 +220,8 @@ func c16clientSide(c *core.Case, env *core.Env, st *c16state) {
 		}
 	}
 	// two objects before the race
-	add(90, false, false)
-	add(90, false, false)
+	add(90, false, false, false)
+	add(90, false, false, false)
 	env.S.Quiesce()
 	by := map[int][]core.Op{}
 	var actors []int
@@ -236,7 +239,7 @@ func c16clientSide(c *core.Case, env *core.Env, st *c16state) {
 			for i, op := range by[a] {
 				switch op.Kind {
 				case "cadd":
-					add(a, op.S == "nest", op.S == "doom")
+					add(a, op.S == "nest" || op.S == "family", op.S == "doom", op.S == "family")
 				case "cremove", "cself":
 					if rec := pick(op.X); rec != nil {
 						remove(a, op.Kind, rec)
@@ -333,6 +336,14 @@ func c16checkClientSide(c *core.Case, env *core.Env, res zzsim.Result, v *core.V
 			if a.addCall < endB && b.addCall < endA {
 				bad("id-not-unique", "objects in slots %d and %d were both activated with id %d while live", a.slot, b.slot, ida)
 			}
+		}
+	}
+	// a parent that takes its child down with it: the child's removal begins
+	// with the parent's
+	for _, o := range cs.lents {
+		if p := o.parent; p != nil && p.impl.TermRemovesNest && p.removeCall != 0 && o.removeCall == 0 {
+			o.removeCall = p.removeCall
+			o.removeRets = append(o.removeRets, p.removeRets...)
 		}
 	}
 	for _, o := range cs.lents {
